@@ -24,7 +24,7 @@ func init() {
 		MinDistinct: 100,
 		Plan: func(tier string) []core.Suite {
 			if tier == "thorough" {
-				return []core.Suite{{Name: "full", N: 60000}, {Name: "partial", N: 60000}, {Name: "tall", N: 100, CaseTimeout: 600}}
+				return []core.Suite{{Name: "full", N: 300000}, {Name: "partial", N: 300000}, {Name: "tall", N: 300, CaseTimeout: 600}}
 			}
 			return []core.Suite{{Name: "full", N: 5000}, {Name: "partial", N: 5000}, {Name: "tall", N: 6, CaseTimeout: 600}}
 		},
